@@ -358,6 +358,39 @@ func ruleR7(p *Prog, r *Report) {
 			if c, ok := in.(ssa.CallInstruction); ok && c.Common().IsInvoke() && c.Common().Method.Name() == "Uninline" {
 				kinds[typeName(c.Common().Value.Type())] = true
 			}
+			// a value of the slab kind handed to a private helper that calls Uninline on that parameter
+			c, ok := in.(ssa.CallInstruction)
+			if !ok {
+				return
+			}
+			g := staticCallee(c)
+			if g == nil || g.Pkg != p.RootSSA || len(g.Blocks) == 0 {
+				return
+			}
+			for ai, a := range c.Common().Args {
+				src := a
+				for depth := 0; depth < 4; depth++ {
+					switch x := src.(type) {
+					case *ssa.ChangeInterface:
+						src = x.X
+						continue
+					case *ssa.MakeInterface:
+						src = x.X
+						continue
+					}
+					break
+				}
+				kind := typeName(canon(src).Type())
+				if (kind != "ArraySlab" && kind != "MapSlab") || ai >= len(g.Params) {
+					continue
+				}
+				prm := g.Params[ai]
+				eachInstr(g, func(z ssa.Instruction) {
+					if c2, ok := z.(ssa.CallInstruction); ok && c2.Common().IsInvoke() && c2.Common().Method.Name() == "Uninline" && sameValue(c2.Common().Value, prm) {
+						kinds[kind] = true
+					}
+				})
+			}
 		})
 		r.Decide(kinds["ArraySlab"] && kinds["MapSlab"], R, "uninline-kinds", p.Pos(u.Pos()), "both array and map slabs are uninlined", "uninlineStorableIfNeeded does not uninline both ArraySlab and MapSlab")
 		// once the value id of the detached container is known on a path it is what the function reports: the callers
